@@ -97,6 +97,22 @@ def alphabet():
     um("u(int,b'1')", "num", int, lambda: b"1")
     um("u(Literal[1],'1')", "num", lambda: typing.Literal[1], lambda: "1")
     um("u(float,'1')", "num", float, lambda: "1")
+    um("u(Literal[1],1)", "num", lambda: typing.Literal[1], lambda: 1)
+    um("u(Literal[1],True)", "num", lambda: typing.Literal[1], lambda: True)
+    um("u(Literal[1],1.0)", "num", lambda: typing.Literal[1], lambda: 1.0)
+    um("u(list[Literal[2,'a']],[2.0])", "num", lambda: list[typing.Literal[2, "a"]], lambda: [2.0])
+    um("u(list[Literal[2,'a']],[2,'a'])", "num", lambda: list[typing.Literal[2, "a"]], lambda: [2, "a"])
+    ma("m(True,Literal[1])", "num", lambda: typing.Literal[1], lambda: True)
+    ma("m(1,Literal[1])", "num", lambda: typing.Literal[1], lambda: 1)
+    # one member order only (family "union1"): history dependence here is NOT the Union[A, B] == Union[B, A] conflation
+    ma("m('5',float|str)", "union1", lambda: U[float, str], lambda: "5")
+    ma("m('five',float|str)", "union1", lambda: U[float, str], lambda: "five")
+    ma("m(5.0,float|str)", "union1", lambda: U[float, str], lambda: 5.0)
+    um("u(float|str,'5')", "union1", lambda: U[float, str], lambda: "5")
+    um("u(float|str,'five')", "union1", lambda: U[float, str], lambda: "five")
+    um("u(Optional[str],None)", "union1", lambda: typing.Optional[str], lambda: None)
+    um("u(Optional[str],'x')", "union1", lambda: typing.Optional[str], lambda: "x")
+    um("u(list[Optional[bytes]],[None,b'x',None])", "union1", lambda: list[typing.Optional[bytes]], lambda: [None, b"x", None])
     ma("m(dt+00:00)", "temporal", datetime.datetime, lambda: d1)
     ma("m(dt+02:00)", "temporal", datetime.datetime, lambda: d2)
     um("u(str,dt+00:00)", "temporal", str, lambda: d1)
